@@ -9,6 +9,7 @@ use crate::oracle::poker::Oracle;
 use std::sync::OnceLock;
 
 pub mod consts;
+pub mod variants;
 pub mod hands;
 pub mod history;
 pub mod c01;
